@@ -63,6 +63,11 @@ func RecvFilterList(c *rsyncwire.Conn) (*filterRuleList, error) {
 			return nil, err
 		}
 		l.addRule(fr)
+		if fr.flag&filtruleWild != 0 {
+			// Refuse what rule_matches cannot honour (it would panic on
+			// the first walked entry) so that the peer gets an error.
+			return nil, fmt.Errorf("wildcard filter rules not yet implemented: %q", line)
+		}
 	}
 	return &l, nil
 }
